@@ -44,6 +44,10 @@ def member_model(ms):
 def check_world(w):
     """Returns list of (member index, kind, what) ; kind = 'spec' (differs from its solo run, which
     agrees with the model), 'corr' (solo run and model disagree)."""
+    for m in w.members:
+        eng.normalize(m.scn)
+    for f in w.families:
+        eng.normalize(f.scn)
     obs = W.run_world(w)
     models = member_model(w.members)
     fails = []
